@@ -38,6 +38,7 @@ class CaptureNode(Node):
         self.name = name
         self.block = block
         self.end_tag_token = end_tag_token
+        self.blank = True
 
     def __str__(self) -> str:
         assert isinstance(self.token, TagToken)
